@@ -9,8 +9,9 @@
                                            -> ok <n> outs <pattern>
     lazyloc <strand> <k> (s e)… <m> r…    reads r ∈ {ov, bl} of a CompoundInterval's lazily filled attributes
                                            -> ok <answer>…           true|false   /   b:s-e,s-e
-    pstrand <strand|N> <N | strand len> <n>   n reads of Parent(strand=…, location=…).strand
-                                           -> ok <+|-|.|N>…   |  err InvalidStrand
+    pstrand <strand|N> <N | strand len> <n>   n reads of Parent(strand=…, location=…).strand, asked twice: under cold
+                                           caches / after Parents differing only in one strand were built
+                                           -> ok <half> / <half>      half = <+|-|.|N>… | err:InvalidStrand
     cdshist <letters> <ops> …             ops word over c (chunk_relative_codon_locations), n (num_chunk_relative_codons),
                                            e (extract_sequence), v (has_valid_stop); the rest of the line (the CDS
                                            literal for the implementation) is ignored: `letters` IS the coding sequence
@@ -119,11 +120,14 @@ def ops : List (String × Op) := [
         | t => throw s!"loc? {t}")
       let n ← pNat
       -- Parent.__init__: `if strand and location.strand and strand is not location.strand: raise InvalidStrandException`
-      match sa, loc with
-      | some a, some (b, _) =>
-        if a ≠ b then pure "err InvalidStrand"
-        else pure ("ok " ++ " ".intercalate ((ParentS.reads ⟨sa, loc, none⟩ n).2.map showStrandOpt))
-      | _, _ => pure ("ok " ++ " ".intercalate ((ParentS.reads ⟨sa, loc, none⟩ n).2.map showStrandOpt))),
+      let half : String :=
+        match sa, loc with
+        | some a, some (b, _) =>
+          if a ≠ b then "err:InvalidStrand"
+          else " ".intercalate ((ParentS.reads ⟨sa, loc, none⟩ n).2.map showStrandOpt)
+        | _, _ => " ".intercalate ((ParentS.reads ⟨sa, loc, none⟩ n).2.map showStrandOpt)
+      -- the model has no process-wide cache: the answer under cold caches and after the siblings were built coincide
+      pure s!"ok {half} / {half}"),
   ("cdshist", do
       let letters ← tok; let w ← tok; let _ ← pRestToks
       match pCdsOps w with
